@@ -54,6 +54,8 @@ def gen_worlds(seed, n):
             k += 1
         elif len(ws) % 12 == 7:
             w = simgen.gen_clockwork_world(rng)       # batches and profile loading: monitors only (not fed to the machine)
+        elif len(ws) % 12 == 4:
+            w = simgen.gen_direct_world(rng)          # TaskGraphs built directly, sources of one graph released at different times
         elif len(ws) % 3 == 2:
             w = simgen.gen_fuzz_world(rng)
         else:
